@@ -143,3 +143,10 @@ Fixpoint zseq (n : nat) : list Z := match n with O => [] | S k => zseq k ++ [Z.o
 Definition tl_site : list (Z * table) := [ (1%Z, TKey [0; 1]%Z); (22%Z, TThread 1%Z) ].
 Definition tl_task (i t : nat) : prog Z :=
   Read (22%Z, Z.of_nat t) (fun st : Z => Write (1%Z, Z.of_nat i) (st * 7 + 1)%Z (Write (22%Z, Z.of_nat t) (st + 1)%Z Done)).
+
+(* ---- mjCModel::SaveState / RestoreState around mj_recompile, for one per-object array: object k owns the [stride]
+   consecutive entries starting at offmul * k; SaveState copies them into the object, RestoreState writes them back in
+   object order.  The code must use offmul = stride (3 for mocap_pos, 4 for mocap_quat, nq(j)/nv(j) per joint, ...). *)
+Definition slice {A : Type} (off len : nat) (l : list A) : list A := firstn len (skipn off l).
+Definition save_restore {A : Type} (offmul stride n : nat) (l : list A) : list A :=
+  flat_map (fun k : nat => slice (offmul * k) stride l) (seq 0 n).
